@@ -2,7 +2,7 @@
 Runtime stream: programs with one fault planted at a generator-known line and call depth; the generator's ground
 truth (line of the innermost statement, call-site line of every active call) is compared with the location lines of
 the rendered error; the same programs go through the three-way run (Go = model = spec result/trace)."""
-from props import progs
+from props import progs, c18_handled
 from props.progs import replay  # noqa
 from zngen import *
 
@@ -13,16 +13,20 @@ RULE = ("programs with one fault (抛出, 1/0, undefined name, index out of rang
         "method / constructor declaration that fails while the declarations of its block are executed ahead of the other statements: failing "
         "property default, a name declared twice, a constructor for a name that is no type — the line is the declaration's) planted at a "
         "known line inside a chain of 0–4 nested calls, inside branches/loops, after earlier handled exceptions (stale frames must not "
-        "appear), after single- and multi-line comments and multi-line text literals (physical line counting), with LF or CRLF line ends; "
+        "appear: 1–3 episodes of 1–5 calls — methods, object methods, constructors — with 1–4 handlers of which all but the outermost "
+        "raise again by 抛出 of the same / another type, a runtime fault, a failing call or built-in, handlers that handle another failing "
+        "call inside them, loops of 2–3 passes around the handled call, entered from the program body or from a call that is still "
+        "active at the fault — props/c18_handled.py), after single- and multi-line comments and multi-line text literals (physical line counting), with LF or CRLF line ends; "
         "expected chain = call-site line of every active call, innermost statement line last; programs whose 导入 statement fails "
         "(missing library / module, the same library twice) on a line ≥ 2 after comments and blank lines — the line is that statement's; "
         "syntax errors planted on a generator-known line: a stray ） after wide characters (caret column), and a line inserted after a "
         "complete statement that is indented deeper than that statement, with spaces or TABs (error 20 on THAT line, caret 0). "
         "Non-trivial = call depth ≥ 1, a multi-line construct before the fault, or one of the fault kinds named after the first semicolon.")
-ASSUMPTIONS = ["all frames are in the main module or in a standard library in this stream (cross-module chains are exercised by C15's "
-               "module stream)",
-               "programs with a 导入 statement are `unmodelled` in the evaluator model and `unspecified` in the spec semantics: for them the "
-               "generator's ground truth (line, chain) is the comparison that counts"]
+ASSUMPTIONS = ["stream chain: all frames are in the main module or in a standard library; stream chain-modules: the same kind of programs with "
+               "a closed set of their methods / types moved into an imported module file (every entry of the expected chain names its module)",
+               "a call of a library function is `unmodelled` in the evaluator model, programs with a 导入 statement are `unspecified` in the "
+               "spec semantics: for them the generator's ground truth (line, chain) is the comparison that counts (a failing 导入 statement "
+               "itself IS modelled: Go = evaluator model on code, line and chain)"]
 PARTIAL = ("syntax-error line/caret (lexer Lines table, error printer) are the lexer/parser workers' theorems; this module covers runtime "
            "errors and uncaught exceptions")
 
@@ -207,6 +211,14 @@ def gen(g, rng):
     body = []
     # an earlier handled exception: its frames must not show up later
     handled = rng.random() < 0.5
+    # … mostly as 1–3 episodes whose handlers raise again, fail, or handle other failures inside them, entered from the program body or
+    # from one of the calls that are active at the fault (props/c18_handled.py); sometimes the plain shape below
+    episodes = c18_handled.plan(g, rng, depth) if handled and rng.random() < 0.8 else []
+    if episodes:
+        handled = False
+        body += c18_handled.etype_defs()
+        for _at, ep in episodes:
+            body += ep.defs
     if handled:
         # … whatever number of calls the exception crossed before it was taken
         hd = rng.randint(1, 3)
@@ -228,6 +240,10 @@ def gen(g, rng):
     fstmt.tag = 'fault'
     for i in range(depth, 0, -1):
         fb = [filler(g, rng) for _ in range(rng.randint(0, 3))]
+        for at, ep in episodes:
+            if at == i:
+                # an episode that begins and ends while this call (and its callers) are active
+                fb += c18_handled.site_stmts(g, rng, ep) + [filler(g, rng) for _ in range(rng.randint(0, 1))]
         if i == depth:
             inner = flt.pre + [fstmt]
         else:
@@ -259,6 +275,9 @@ def gen(g, rng):
     main = [filler(g, rng) for _ in range(rng.randint(0, 4))]
     if handled:
         main.append(ExprS(Call('显示', [Call('先败', [])])))
+    for at, ep in episodes:
+        if at == 0:
+            main += c18_handled.site_stmts(g, rng, ep) + [filler(g, rng) for _ in range(rng.randint(0, 1))]
     main += [filler(g, rng) for _ in range(rng.randint(0, 2))]
     if depth == 0:
         main += flt.pre + [fstmt]
@@ -272,7 +291,10 @@ def gen(g, rng):
     # what the fault needs: definitions (anywhere among the others: they are hoisted), import lines
     for d in flt.defs:
         body.insert(rng.randint(0, len(body)), d) if not isinstance(d, Func) or not d.ctor else body.append(d)
-    return Program([], body + main, imports=flt.imports), depth, tail, flt.kind
+    p = Program([], body + main, imports=flt.imports)
+    p.handled_kinds = (['episodes-%d' % len(episodes)] + sorted({k for _at, ep in episodes for k in ep.kinds})) if episodes else \
+        (['plain'] if handled else [])
+    return p, depth, tail, flt.kind
 
 
 def run(ctx):
@@ -292,6 +314,7 @@ def run(ctx):
                                              or '错参' in src or '错型' in src or '法型' in src or '数甲' in src or '“文”' in src
                                              or '败型' in src or '重名' in src or '重型' in src or '无此型' in src)
     # ground truth of the generator vs the rendered error
+    wrong = []
     for (p, _), (depth, tail, kind), src, g_out in zip(ps, meta, srcs, go):
         tags = dict(p.tags)
         if getattr(p, 'fault_import', None) is not None:
@@ -304,8 +327,41 @@ def run(ctx):
         got = f[3] if g_out.startswith('err') and len(f) > 3 else g_out
         ctx.count('chain-depth-%d' % depth)
         ctx.count('fault-' + kind)
+        for hk in getattr(p, 'handled_kinds', []):
+            ctx.count('handled:' + hk)
         if got != '>'.join(exp):
-            ctx.violation('chain:ground-truth', case, g_out, 'expected chain ' + '>'.join(exp))
+            wrong.append((len(src), case, g_out, 'expected chain ' + '>'.join(exp)))
+    for _n, case, g_out, exp in sorted(wrong):     # the shortest program first: it heads the replay file
+        ctx.violation('chain:ground-truth', case, g_out, exp)
+    # ---- the same kind of programs with a closed set of their methods / types in an imported module: every entry of the chain names
+    # the module its frame runs in (main:<line> / <module>:<line>), lines counted in that module's own file -------------------------
+    xs, xmeta = [], {}
+    for _ in range(ctx.n(500, 15000)):
+        p, depth, tail, kind = gen(g, rng)
+        if p.imports:
+            continue
+        xs.append((p, {}))
+        xmeta[id(p)] = (depth, tail, kind)
+    split = progs.run_split_stream(ctx, 'chain-modules', xs,
+                                   nontrivial=lambda src, go: progs.hx(progs.MODULE_NAME) + ':' in go.split(' | ')[0])
+    for p, mainp, modp, msrc, dsrc, g_out in split:
+        depth, tail, kind = xmeta[id(p)]
+        mt, dt = dict(mainp.tags), dict(modp.tags)
+
+        def where(tag):
+            if tag in mt:
+                return 'main:%d' % (mt[tag] + 1)
+            return '%s:%d' % (progs.hx(progs.MODULE_NAME), dt[tag] + 1)
+        exp = [where('call_%d' % i) for i in range(depth)] + [where('fault')]
+        if tail:
+            exp.append(tail)
+        f = g_out.split(' ')
+        got = f[3] if g_out.startswith('err') and len(f) > 3 else g_out
+        ctx.count('chain-modules-frames-in-module-%d' % sum(1 for e in exp if not e.startswith('main:') and e != 'native'))
+        if got != '>'.join(exp):
+            ctx.violation('chain-modules:ground-truth', 'runfiles 2 %s %s %s %s %s' % (
+                progs.hx('主.zn'), cps(msrc), progs.hx(progs.MODULE_NAME + '.zn'), cps(dsrc), progs.hx('主.zn')),
+                g_out, 'expected chain ' + '>'.join(exp))
     # ---- syntax errors: a stray token planted on a generator-known line, after wide characters -------------
     syn_lines, syn_expect = [], []
     for src in srcs[: ctx.n(400, 8000)]:
